@@ -14,7 +14,8 @@ PROP = {
   "saml2_tophat.validate:valid_integer",
   "saml2_tophat.validate:valid_non_negative_integer",
   "saml2_tophat.validate:valid_positive_integer",
-  "saml2_tophat.validate:valid_unsigned_byte"
+  "saml2_tophat.validate:valid_unsigned_byte",
+  "saml2_tophat.validate:valid_boolean"
  ],
  "function_generator": [
   "contracts.c_validate_classes",
